@@ -240,7 +240,12 @@ fn cmd_sim(a: &Args) -> i32 {
                         props_here.insert(k[..3].to_string());
                     }
                     // faults profile: every monitor doubles as a C12 obligation for the survivors
-                    let crashed_here = f.obl.contains_key("C05.panic") || out.log.iter().any(|e| matches!(&e.k, ev::K::Ended { sum, .. } if sum.panic.is_some() || sum.completed == Some(false)));
+                    let crashed_here = f.obl.contains_key("C05.panic") || out.log.iter().any(|e| match &e.k {
+                        ev::K::Ended { sum, .. } => sum.panic.is_some() || sum.completed == Some(false),
+                        ev::K::StartExit { out, .. } | ev::K::StopExit { out, .. } | ev::K::RunDone { out, .. } => matches!(out, ev::Out::Err | ev::Out::Panic),
+                        ev::K::HPanic { .. } => true,
+                        _ => false,
+                    });
                     if crashed_here {
                         props_here.insert("C12".to_string());
                         *obl.entry("C12.isolated_histories").or_default() += 1;
@@ -386,6 +391,8 @@ fn actor_crashed(log: &[ev::Ev], a: usize) -> bool {
     log.iter().any(|e| match &e.k {
         ev::K::Ended { actor, sum } if *actor == a => sum.panic.is_some() || sum.completed == Some(false),
         ev::K::HPanic { actor, .. } if *actor == a => true,
+        // judged by what the hooks did, too: a failure the JoinHandle does not report is still a failure
+        ev::K::StartExit { actor, out } | ev::K::StopExit { actor, out } | ev::K::RunDone { actor, out, .. } if *actor == a => matches!(out, ev::Out::Err | ev::Out::Panic),
         _ => false,
     })
 }
